@@ -104,17 +104,26 @@ def setErase (l : List Addr) (a : Addr) : List Addr := l.filter (· ≠ a)
 def shareOfRewards (sh : Shares) (vi : ValInfo) (rewards : Dec) : Dec :=
   if vi.stake = 0 then Dec.zero else Dec.divNat (Dec.mul rewards sh.stake) vi.stake
 
+/-- nanoseconds per second: every time of this model is a `Timestamp`, i.e. nanoseconds -/
+def NS : Nat := 1000000000
+
+/-- `current_time.minus_seconds(since.seconds()).seconds()` (staking.rs:281): the whole seconds of block time between
+two instants, `floor(now) - floor(since)` — rewards do not see the sub-second parts -/
+def elapsed (now since : Nat) : Nat := now / NS - since / NS
+
 /-- the gross reward of `calculate_rewards`: `stake * apr * dt / YEAR` on Decimals -/
 def grossReward (now since : Nat) (apr : Dec) (stake : Nat) : Dec :=
-  Dec.div (Dec.mul (Dec.mul (Dec.ofNat stake) apr) (Dec.ofNat (now - since))) (Dec.ofNat YEAR)
+  Dec.div (Dec.mul (Dec.mul (Dec.ofNat stake) apr) (Dec.ofNat (elapsed now since))) (Dec.ofNat YEAR)
 
 /-- `reward - reward * commission` (the subtraction panics on underflow, i.e. for a commission above 1) -/
 def netReward (reward commission : Dec) : Outcome Dec :=
   if reward < Dec.mul reward commission then .panic else .ok (Dec.sub reward (Dec.mul reward commission))
 
-/-- `calculate_rewards` (staking.rs:273-291); `Timestamp::minus_seconds` panics when `since` lies after `now` -/
+/-- `calculate_rewards` (staking.rs:273-291); `Timestamp::minus_seconds(since.seconds())` panics when the whole
+seconds of `since` lie after `now`
+(`now < floor(since)·NS`, i.e. `now / NS < since / NS`) -/
 def calcRewards (now since : Nat) (apr commission : Dec) (stake : Nat) : Outcome Dec :=
-  if now < since then .panic else netReward (grossReward now since apr stake) commission
+  if now / NS < since / NS then .panic else netReward (grossReward now since apr stake) commission
 
 /-- the credit loop of `update_rewards` over the staker set -/
 def creditAll (stakes : KMap (Addr × String) Shares) (v : String) (vi : ValInfo) (nr : Dec) :
@@ -320,7 +329,7 @@ def undelegate (c : Chain) (sender : Addr) (v : String) (coin : Coin) : Outcome 
     match removeStake c.st c.time sender v coin with
     | .ok st =>
       .ok { c with st := { st with queue := st.queue ++
-              [⟨sender, v, coin.amount, c.time + st.info.unbondingTime⟩] } }
+              [⟨sender, v, coin.amount, c.time + NS * st.info.unbondingTime⟩] } }
     | .err => .err
     | .panic => .panic
     | .outOfFuel => .outOfFuel
@@ -386,8 +395,9 @@ def addValidator (c : Chain) (val : Validator) : Outcome Chain :=
     .ok { c with st := { c.st with validators := c.st.validators ++ [val],
                                    vinfo := KMap.set c.st.vinfo val.address (ValInfo.new c.time) } }
 
-/-- `App::update_block(|b| { b.time += secs; b.height += 1 })`: the block changes first, then
-`process_queue(..).unwrap()` runs on the live storage (no transaction) -/
+/-- `App::update_block(|b| { b.time += dt; b.height += 1 })` / `App::set_block`: the block changes first, then
+`process_queue(..).unwrap()` runs on the live storage (no transaction); `secs` is the step in NANOSECONDS (the
+name is historical) -/
 def advance (cfg : Cfg) (c : Chain) (secs : Nat) : Outcome Chain :=
   match processQueue cfg (c.time + secs) c.st c.bank c.st.queue with
   | .ok (st, bank) => .ok { st := st, bank := bank, time := c.time + secs, height := c.height + 1 }
